@@ -1861,6 +1861,9 @@ impl Monitor for C19 {
     fn prop(&self) -> &'static str {
         "C19"
     }
+    fn scalable(&self, g: &str) -> bool {
+        matches!(g, "sequences" | "text" | "echo" | "mc-status-push")
+    }
     fn gens(&self, tier: Tier) -> Vec<Gen> {
         if tier == Tier::Sanitizer {
             return vec![gen("san-text", N_TEXT_TYPES * 16), gen("san-fields", field_pairs().len() as u64 * 16), gen("san-var", 16 * 6)];
